@@ -49,21 +49,11 @@ def nontrivial_ops(counters_before, counters_after):
     return False
 
 
-def run_one(ctx, eng, counters, before):
-    ctx.evaluated(eng.evals)
-    ctx.count("histories")
-    ctx.extra["distinct_states"] = ctx.extra.get("distinct_states", 0)
-    STATES.update(eng.states)
-    if nontrivial_ops(before, counters):
-        ctx.nontrivial(eng.executed)
-    if eng.findings:
-        histories.report(ctx, eng, CHECKS, STRICT)
-
-
 STATES = set()
 
 
-def run(ctx, profile=PROFILE, checks=CHECKS, strict=STRICT, depth=None, nrand=None):
+def run(ctx, profile=PROFILE, checks=CHECKS, strict=STRICT, depth=None, nrand=None, nontrivial=None):
+    nontrivial = nontrivial or nontrivial_ops
     rng = random.Random(ctx.seed * 9176 + ctx.shard * 7919 + int(profile[1:]))
     quick = ctx.tier == "quick"
     counters = collections.Counter()
@@ -77,7 +67,7 @@ def run(ctx, profile=PROFILE, checks=CHECKS, strict=STRICT, depth=None, nrand=No
         before = dict(counters)
         eng = histories.replay(ops, checks, strict, counters)
         ctx.count("prelude_histories")
-        _one(ctx, eng, counters, before, checks, strict)
+        _one(ctx, eng, counters, before, checks, strict, nontrivial)
         if ctx.shard == 0 and n in (50, 5000):
             ctx.sample({"prelude_base": bname, "ops": ops})
     nrand = nrand or (1500 if quick else 6000)
@@ -86,7 +76,7 @@ def run(ctx, profile=PROFILE, checks=CHECKS, strict=STRICT, depth=None, nrand=No
         eng = histories.generate(rng, profile, checks, rng.randint(40, 120), strict, counters,
                                  nv=rng.randint(2, 4))
         ctx.count("random_histories")
-        _one(ctx, eng, counters, before, checks, strict)
+        _one(ctx, eng, counters, before, checks, strict, nontrivial)
         if ctx.shard == 0 and i in (3, 700):
             ctx.sample({"random_history": eng.executed[:40] + (["..."] if len(eng.executed) > 40 else [])})
     for k, v in counters.items():
@@ -98,11 +88,11 @@ def run(ctx, profile=PROFILE, checks=CHECKS, strict=STRICT, depth=None, nrand=No
     ]
 
 
-def _one(ctx, eng, counters, before, checks, strict):
+def _one(ctx, eng, counters, before, checks, strict, nontrivial):
     ctx.evaluated(eng.evals)
     ctx.count("histories")
     STATES.update(eng.states)
-    if nontrivial_ops(before, counters):
+    if nontrivial(before, counters):
         ctx.nontrivial(eng.executed)
     if eng.findings:
         histories.report(ctx, eng, checks, strict)
